@@ -324,6 +324,7 @@ def run_worker(sc: Dict[str, Any], register: Optional[Callable[..., None]] = Non
     tr = Trace(loop)
     b = ScriptedBroker(tr)
     b.ends = bool(sc.get("ends", False))
+    b.is_worker_process = True   # what `taskiq worker` sets before it starts the receiver
     b.kick_fail = set(sc.get("fail_kicks", ()))
     rb = RecordingBackend(tr, sc.get("fail_saves", ()), sc.get("save_latency", 0.0))
     b.result_backend = rb
